@@ -1,44 +1,28 @@
-"""Per-property configuration: harness sources, build configurations, budgets,
-non-triviality rule (documentation of what the harness counts)."""
+"""Per-property configuration, one module per property in vf/propdefs/CNN.py
+defining PROP = dict(...):
 
-COMMON_ASSUME = [
-    'gcc 12 / clang 14 on x86-64 little-endian Linux; other targets '
-    '(big-endian hosts, NEON) are not exercised',
-    'rapidcheck / libFuzzer generate the cases; absence of a failure is not a '
-    'proof',
-]
+  harness      list of harness sources (relative to harness/)
+  rule         text: how cases are generated and what counts as non-trivial
+  level_text / level_note   text for MANIFEST.json
+  quick / thorough          dict(configs=[...], cases=N, maxlen=L, fuzz_s=S ...)
+  required_classes          class counters that must be non-zero (generator health)
+  assumptions               list of strings for the evidence file
+optional: level, technique, defs, libs, env, case_timeout, sweep, alloc,
+          replay_config, confirm, generate, claimed
+"""
+import glob
+import importlib.util
+import os
 
 PROPS = {}
 NOT_APPLICABLE = {}
 
-PROPS['C01'] = dict(
-    harness=['c01_scalar.c', 'vf_ref.c'],
-    level_text=('generated-input search: every scalar family, every function '
-                'and macro entry point, legal fixed widths, alignments, in the '
-                'sanitised, pinned-release and unoptimised-with-asserts builds; '
-                'round-trip + four-way length agreement + reference length + '
-                'canary oracle; exhaustive only for the +-300 neighbourhood of '
-                'every format boundary'),
-    level_note=('trusts the harness decoders of the case bytes, the reference '
-                'length functions in harness/vf_ref.c (validated against their '
-                'own decoder in C04) and the compilers; not exhaustive over '
-                '2^64'),
-    rule=('case = (family, put entry point, alignment 0..15, background fill, '
-          'up to 8 boundary-biased values with a fixed-width selector); '
-          'non-trivial = encoded length >= 3, or value within +-2 of a table '
-          'boundary, or a fixed-width / quick-macro / reversed / 32-bit / '
-          'sign-helper entry point; distinct by hash of (family, entry point, '
-          'value, width selector)'),
-    quick=dict(configs=['asan', 'rel', 'dbg'], cases=3000000, maxlen=96),
-    thorough=dict(configs=['asan', 'rel', 'dbg'], cases=60000000, maxlen=96,
-                  fuzz_s=60, setmax=1 << 23),
-    required_classes=['signed', 'tagged.len9', 'splitFull16.len9',
-                      'chained.len9', 'externalBE.PutFixedWidthQuick_',
-                      'split.ReversedPutReversed_'],
-    assumptions=COMMON_ASSUME + [
-        'destination buffers have the 9 bytes the headers require; untouched '
-        'bytes are checked with canaries',
-        'tagged fixed widths are restricted to widths whose form can represent '
-        'the value (w=2: 240..2287, w=3: 2288..67823, w>=4: v < 2^(8(w-1)))',
-    ],
-)
+_d = os.path.join(os.path.dirname(os.path.abspath(__file__)), 'propdefs')
+for _f in sorted(glob.glob(os.path.join(_d, 'C*.py'))):
+    _id = os.path.basename(_f)[:-3]
+    _spec = importlib.util.spec_from_file_location('propdef_' + _id, _f)
+    _m = importlib.util.module_from_spec(_spec)
+    _spec.loader.exec_module(_m)
+    PROPS[_id] = _m.PROP
+    if hasattr(_m, 'NOT_APPLICABLE'):
+        NOT_APPLICABLE[_id] = _m.NOT_APPLICABLE
